@@ -39,5 +39,7 @@ available, its verdict on the *implementation's* output (`none` = not judged her
 structure Verdict where
   model : String
   spec : Option Bool := none
+  /-- which clause of the property failed (used to match known findings) -/
+  reason : String := ""
 
 end Humphrey.Driver
